@@ -272,6 +272,37 @@ def triangle_coords(p, a, b, c):
     return dist, (float(alpha), float(beta), float(gamma))
 
 
+def _isqrt_f(n):
+    """square root of a (possibly huge) non-negative integer / Fraction as a float, one rounding"""
+    if isinstance(n, Fr):
+        return math.sqrt(n.numerator) / math.sqrt(n.denominator)
+    return math.sqrt(n)
+
+
+def segment_margins(p, a, b):
+    """(distance of p to the line ab, signed distance of its projection from a along ab, length of ab): the
+    LENGTH form of segment_coords - the tolerance of a containment test stated as a distance does not depend on how
+    long the edge is (edges of very different lengths in one polyline)."""
+    dist, s = segment_coords(p, a, b)
+    ln = _isqrt_f(_dot([y - x for x, y in zip(a, b)], [y - x for x, y in zip(a, b)]))
+    return dist, s * ln, ln
+
+
+def triangle_margins(p, a, b, c):
+    """(distance of p to the plane abc, signed in-plane distances of its projection to the three edge lines bc, ca, ab -
+    positive on the inner side): margin_k = barycentric coordinate k x altitude k.  The LENGTH form of
+    triangle_coords: for a needle triangle (altitude << longest edge) a rounding of the size of one ulp of the largest
+    coordinate moves a barycentric coordinate by ulp / altitude, but moves the point by one ulp only."""
+    dist, bary = triangle_coords(p, a, b, c)
+    e1 = [y - x for x, y in zip(a, b)]
+    e2 = [y - x for x, y in zip(a, c)]
+    e0 = [y - x for x, y in zip(b, c)]
+    n = _cross(e1, e2)
+    twice_area = _isqrt_f(_dot(n, n))
+    alt = [twice_area / _isqrt_f(_dot(e, e)) for e in (e0, e2, e1)]
+    return dist, tuple(bk * hk for bk, hk in zip(bary, alt))
+
+
 def tri_normal_int(a, b, c):
     return _cross([y - x for x, y in zip(a, b)], [y - x for x, y in zip(a, c)])
 
@@ -338,6 +369,14 @@ def selftest():
     d, (al, be, ga) = triangle_coords((4.0, 0.0, 0.0), a, b, c)
     if not (d == 0 and be == 1.5 and al == -0.5):
         bad.append("triangle_coords outside")
+    # length forms: needle (0,0,0) (2^27,0,0) (2^27,1,0); the point (2^26, 0.5 + 2^-20, 0) is 2^-20 / sqrt(1+2^-54) outside the long edge
+    A, B, C = (0, 0, 0), (2 ** 27, 0, 0), (2 ** 27, 1, 0)
+    d, m = triangle_margins((2.0 ** 26, 0.5 + 2.0 ** -20, 0.0), A, B, C)
+    if d != 0 or abs(min(m) + 2.0 ** -20) > 1e-12 or min(triangle_margins((2.0 ** 26, 0.25, 0.0), A, B, C)[1]) <= 0:
+        bad.append("triangle_margins")
+    d, along, ln = segment_margins((3.0, 4.0, 0.0), (0, 0, 0), (2 ** 27, 0, 0))
+    if abs(d - 4.0) > 1e-12 or abs(along - 3.0) > 1e-12 or ln != 2.0 ** 27:
+        bad.append("segment_margins")
     # Bernstein against the expanded quadratic / de Casteljau in rationals
     P = [(0, 0, 1), (2, -1, 0), (5, 3, 3)]
     for t in (Fr(0), Fr(1, 3), Fr(1, 2), Fr(1)):
